@@ -230,9 +230,13 @@ def advance (c : Ctx) (tr : Tracker) : Option (Tracker × Status × List ImportD
               else some (⟨o, 0, 0⟩, .noMatch, [])
         | _, _ => none
 
-/-- "If there is a potential ambiguity, all results must be the same" -/
+/-- a result with its `nameLoc` blanked: "The location of the export clause is only there for the error message.
+Two different clauses can still export the same binding." -/
+def noLoc (r : MResult) : MResult := { r with loc := 0 }
+
+/-- "If there is a potential ambiguity, all results must be the same" (compared without their `nameLoc`) -/
 def finish (result : MResult) (ambs : List MResult) : MResult :=
-  match ambs.find? (· ≠ result) with
+  match ambs.find? (fun a => noLoc a ≠ noLoc result) with
   | none => result
   | some a =>
     if result.kind = .normal ∧ a.kind = .normal ∧ result.loc ≠ 0 ∧ a.loc ≠ 0 then
